@@ -273,7 +273,7 @@ def gen_case(rnd, direction=None, n_max=12, klass='wellformed', fixed=None, exte
                 xid = 100 + k
             exts.append({'id': xid, 'start': s_, 'end': s_ + td(days=rnd.randint(0, 6), hours=rnd.choice([0, 7])), 'succ': [],
                          'succ_of': sorted(rnd.sample(range(n), rnd.randint(1, min(2, n)))), 'estimate': rnd.choice([None, None, 3, 8]),
-                         'in_other_wbs': rnd.random() < 0.5})
+                         'in_other_wbs': rnd.random() < 0.5, 'via_removed_branch': rnd.random() < 0.25})
     resources = {}
     for nm in res_names:
         if rnd.random() < 0.75:
@@ -331,6 +331,21 @@ def build(case, budget=None, log_queries=False):
     b.other_wbs = None
     for e in case.get('externals') or []:
         x = Task(e['id'], f"ext{e['id']}", start=e['start'], end=e['end'], estimate=e.get('estimate'), milestone=bool(e.get('milestone')))
+        if e.get('via_removed_branch') and e.get('succ_of') and not e.get('succ'):
+            # (backward runs) the outside successor is a former member two levels down in a branch that was removed afterwards
+            try:
+                top = Task(700 + len(exts) * 3, 'former phase', start=e['start'], end=e['end'])
+                mid = Task(701 + len(exts) * 3, 'former step', start=e['start'], end=e['end'])
+                w.roots.append(top)
+                top.children.append(mid)
+                mid.children.append(x)
+                for i in e['succ_of']:
+                    objs[i].successors.append(x)
+                w.remove(top)
+                exts.append(x)
+                continue
+            except RuntimeError:
+                x = Task(e['id'], f"ext{e['id']}", start=e['start'], end=e['end'], estimate=e.get('estimate'))
         if e.get('via_removed_branch') and e.get('succ') and not e.get('kid'):
             try:
                 top = Task(700 + len(exts) * 3, 'former phase', start=e['start'], end=e['end'])
